@@ -79,20 +79,19 @@ add('C15', 'proof', 'Lean 4 theorems (all sizes, all ordered pairs) about execut
     'property evaluated directly on the real code for every pair.',
     TB + 'Modelled rather than verified: planar/_planarcode.py, _planarpauli.py, toric/_toriccode.py, _toricpauli.py, '
     'rotatedtoric/_rotatedtoriccode.py, _rotatedtoricpauli.py and the decoders\' distance functions.')
-add('C07', 'proof', 'Lean 4 theorems (ValidCode for ALL sizes of the planar, toric, rotated-toric and rotated-planar families; basic codes by kernel evaluation) + all-sizes-up-to-bound matrix correspondence and direct rank/commutation monitors',
+add('C07', 'proof', 'Lean 4 theorems: ValidCode for ALL accepted sizes of all five lattice families, basic codes by kernel evaluation + all-sizes-up-to-bound matrix correspondence and direct rank/commutation monitors',
     'A generic, dimension-theory-free definition ValidCode n k S Lx Lz (row lengths, pairwise commutation, canonical '
     'pairing, rank n-k as an independent spanning sub-family, logical independence) with independence-from-destabiliser '
     'and independence-from-pairing lemmas; proved for ALL accepted sizes of the planar (R,C>=2), toric (R,C>=2, k=2), '
-    'rotated-toric (even R,C>=2, k=2) and rotated-planar (R,C>=3) families — flatten bijection onto [0,n), n and stabilizer '
-    'count formulas, commutation, pairing, rank via explicit destabilisers (paths / runs to a reference plaquette or '
-    'boundary) and explicit dependencies (each site lies in exactly two plaquettes of a type on the tori), constructor '
-    'domain over a Python value universe, site/plaquette read-back — and for the five-qubit and Steane codes by kernel '
-    'evaluation: 69 theorems. For the colour 6.6.6 family the all-sizes theorems are in progress; there the claim rests on '
-    'the explored part. Explored for every family: exact equality of stabilizers / logicals / n_k_d / index maps / '
-    'constructor outcomes with the executable Lean models for every size up to the bound, and C07 itself (commutation, '
-    'pairing, GF(2) rank n-k by elimination, logical independence) evaluated directly on the real matrices.',
-    TB + 'Modelled rather than verified: the code and pauli classes of all five lattice families and models/basic.py. '
-    'Colour 6.6.6 has no all-sizes theorem yet (bounded exploration; evidence: explored).')
+    'rotated-toric (even R,C>=2, k=2), rotated-planar (R,C>=3) and colour 6.6.6 (odd size>=3) families — flatten bijection '
+    'onto [0,n), n and stabilizer-count formulas (incl. the float-safety of the colour n formula), commutation, pairing, '
+    'rank via explicit destabilisers (paths / runs to a reference plaquette or boundary) and explicit dependencies (each '
+    'site lies in exactly two plaquettes of a type on the tori), constructor domain over a Python value universe, '
+    'site/plaquette read-back — and for the five-qubit and Steane codes by kernel evaluation: 86 theorems. Tied to the code '
+    'for every family by exact equality of stabilizers / logicals / n_k_d / index maps / constructor outcomes with the '
+    'executable Lean models for every size up to the bound, and C07 itself (commutation, pairing, GF(2) rank n-k by '
+    'elimination, logical independence) evaluated directly on the real matrices.',
+    TB + 'Modelled rather than verified: the code and pauli classes of all five lattice families and models/basic.py.')
 add('C13', 'proof', 'Lean 4 theorems about the graph wrapper and a verified exact minimum-weight-perfect-matching oracle + real mwpm output checked against the oracle',
     'SimpleGraph.add_edge (no pair in both orientations, last write wins), the networkx wrapper (empty graph, weight negation, '
     'max-cardinality: among perfect matchings maximising the negated weight = minimising the weight; with a perfect matching '
@@ -177,6 +176,18 @@ add('C10', 'proof', 'Lean 4 theorems about the coset-probability specification (
     'where the gap exceeds 1e-9; all syndromes for the smallest codes, sampled above.',
     TB + 'Exactness of the contraction is bounded on explored inputs only (worst relative deviation observed 2e-14); '
     'CodeSpec.h_norm is assumed (C07 supplies independence and commutation).')
+
+add('C19', 'proof', 'Lean 4 theorems about a model of the CLI decision logic (spec scanner, literal-only arguments, validators, delegation, output protocol) + in-process and subprocess CLI-vs-API differential',
+    'Proved about the model for all inputs: the name(args) scanner accepts exactly the regex language and recovers name and '
+    'argument text; a non-literal / unparsable argument is a usage error and the constructor is never invoked; validators '
+    'accept exactly the documented ranges and a rejection precedes any simulation; accepted commands delegate one API call '
+    'per probability with exactly the typed options; the output protocol never loses a serialisable payload (exactly one of '
+    'stdout / new file / error log; an existing or uncreatable target is never touched, exit != 0); merge writes iff all '
+    'inputs parse — 15 theorems. click, ast.literal_eval, the OS and the filesystem are outside the model (their outcomes are '
+    'tokens supplied by the harness). CLI == API is a code-vs-code differential, not a theorem: every registered decoder x '
+    'compatible error model is run through CliRunner and compared field-for-field with app.run / run_ftp / merge for the same '
+    'seed, plus real subprocesses for the four output situations and malformed arguments.',
+    TB + 'click / literal_eval / OS / filesystem behaviour is trusted; CLI==API is explored (differential), not proved.')
 
 NOT_YET = {}
 
